@@ -10,7 +10,7 @@ inh    := "N" | "S" | "D" | "Z"                 (none, static, dynamic, dynamic 
 sig    := "-" | name ":" (val | "~") { "/" … }   (`<%page args>`; `~` = no default)
 attrs  := "-" | name ":" val { "/" … }
 node   := "t" k | "c" ref name vals kws | "a" ref name | "g"
-        | "d" name "[" node* "]" | "b" (name | "~") line "[" node* "]" | "x" "[" node* "]"
+        | "d" name sig "[" node* "]" | "b" (name | "~") line "[" node* "]" | "x" "[" node* "]"
 ref    := "s" | "n" | "p" | "l"
 name   := comma-separated code points (Wire.decStr);  vals := "-" | v { "," v };  kws := attrs
 ```
@@ -89,11 +89,12 @@ def parseNodes : Nat → List String → Option (List Node × List String)
       | _ => none
     else if tok == "d" then
       match rest with
-      | nm :: "[" :: rest => do
+      | nm :: sig :: "[" :: rest => do
         let nm ← decStr nm
+        let sig ← decSig sig
         let (kids, r) ← parseNodes f rest
         let (ns, r') ← parseNodes f r
-        pure (.defn nm kids :: ns, r')
+        pure (.defn nm sig kids :: ns, r')
       | _ => none
     else if tok == "b" then
       match rest with
